@@ -917,6 +917,232 @@ def check_scope(run, drv, cases, stats, cast_log):
     return problems
 
 
+# --------------------------------------------------------------------------- converter: castable bookkeeping (OV.Scope)
+
+SCOPE_LITS = ["2", "2.5", "True", "[1, 2]", "-3", "0.5"]
+
+
+def gen_scope_program(rng, pool=4, max_depth=3, top_len=9):
+    """A random function body as (a) the instruction list of OV.Scope and (b) Python source.  Names `v<n>` (n < pool) may
+    be rebound anywhere; every If binds its live outputs in both branches and they are used right after it, so that the
+    converter's liveness analysis and the model's `exit outs` coincide; block-local temporaries get unique names."""
+    st = dict(k=0, tmp=100, uses=0)
+    instrs, lines = [], []
+
+    def bind(n, indent, visible, lit=None):
+        lit = rng.random() < 0.5 if lit is None else lit
+        if lit:
+            instrs.append(f"L{n}")
+            lines.append("    " * indent + f"v{n} = {rng.choice(SCOPE_LITS)}")
+        else:
+            instrs.append(f"T{n}")
+            lines.append("    " * indent + f"v{n} = x + x")
+        visible[-1].add(n)
+
+    def use(n, indent):
+        k = st["uses"]
+        st["uses"] += 1
+        instrs.append(f"U{n}")
+        lines.append("    " * indent + f"u{k} = x * v{n}")
+
+    def vis(visible):
+        return sorted(set().union(*visible))
+
+    def block(indent, depth, visible, bindable, length):
+        for _ in range(length):
+            r = rng.random()
+            v = vis(visible)
+            if r < 0.35 and bindable:
+                bind(rng.choice(bindable), indent, visible)
+            elif r < 0.45:
+                st["tmp"] += 1
+                bind(st["tmp"], indent, visible)
+                use(st["tmp"], indent)
+            elif r < 0.8 and v:
+                use(rng.choice(v), indent)
+            elif depth < max_depth:
+                if_stmt(indent, depth, visible, bindable)
+            elif v:
+                use(rng.choice(v), indent)
+
+    def if_stmt(indent, depth, visible, bindable):
+        outs = [n for n in bindable if rng.random() < 0.4]
+        st["tmp"] += 1
+        dummy = st["tmp"]
+        lines.append("    " * indent + "if c:")
+        instrs.append("E")
+        visible.append(set())
+        block(indent + 1, depth + 1, visible, outs, rng.randint(1, 4))
+        for n in outs:
+            if n not in visible[-1]:
+                bind(n, indent + 1, visible)
+        bind(dummy, indent + 1, visible, lit=False)
+        visible.pop()
+        instrs.append("X:")
+        lines.append("    " * indent + "else:")
+        instrs.append("E")
+        visible.append(set())
+        v = vis(visible)
+        if v and rng.random() < 0.6:
+            use(rng.choice(v), indent + 1)
+        for n in outs:
+            bind(n, indent + 1, visible, lit=rng.random() < 0.3)
+        bind(dummy, indent + 1, visible, lit=False)
+        visible.pop()
+        live = sorted(outs + [dummy], key=lambda n: f"v{n}")
+        instrs.append("X:" + ",".join(map(str, live)))
+        visible[-1].update(live)
+        for n in live:
+            use(n, indent)
+
+    visible = [set()]
+    bind(0, 1, visible, lit=True)
+    block(1, 0, visible, list(range(pool)), top_len)
+    body = "\n".join(lines)
+    return instrs, body, st["uses"]
+
+
+def check_scope_model(run, drv, progs, stats):
+    """`Converter._is_castable` at every use of a named operand vs OV.Scope.run."""
+    bodies = []
+    for i, (instrs, body, nuses) in enumerate(progs):
+        src = (f"@script(default_opset=opset18)\ndef f{i}(x: DOUBLE[2], c: BOOL):\n{body}\n    r = x + x\n    return r\n")
+        bodies.append((f"f{i}", src))
+    answers = drv.ask(["scope " + " ".join(instrs) for instrs, _, _ in progs])
+    fn, err, modname = scriptgen.compile_functions(bodies, header_extra=HEADER_EXTRA)
+    problems = []
+    for i, (instrs, body, nuses) in enumerate(progs):
+        name = f"f{i}"
+        stats["scopemodel_programs"] += 1
+        if name in err:
+            stats["scopemodel_refused"] += 1
+            stats["scopemodel_refused:" + err[name][0] + ":" + err[name][1].replace("\n", " ")[:50]] += 1
+            continue
+        model = answers[i].split(" ") if answers[i] else []
+        real = {}
+        for n in all_nodes(fn[name].function_ir.graph):
+            if n.op_type == "Mul" and n.outputs and n.outputs[0].name and n.outputs[0].name.startswith("u"):
+                k = n.outputs[0].name[1:]
+                if k.isdigit():
+                    prod = n.inputs[1].producer() if n.inputs[1] is not None else None
+                    real[int(k)] = "1" if (prod is not None and prod.op_type == "CastLike") else "0"
+        got = [real.get(k, "?") for k in range(nuses)]
+        stats["scopemodel_uses"] += nuses
+        stats["scopemodel_castable"] += got.count("1")
+        stats["scopemodel_depth_max"] = max(stats["scopemodel_depth_max"], max((ln.count("    ") for ln in body.split("\n")), default=0))
+        if got != model:
+            k = next((j for j in range(min(len(got), len(model))) if got[j] != model[j]), None)
+            problems.append((" ".join(instrs), bodies[i][1], f"use #{k}: converter {'CastLikes' if k is not None and got[k] == '1' else 'does not CastLike'} the operand, "
+                             f"model says {model[k] if k is not None else model}; all uses impl={''.join(got)} model={''.join(model)}"))
+    scriptgen.release(modname)
+    return problems
+
+
+# --------------------------------------------------------------------------- which positional arguments are inputs (OV.Call)
+
+ATTR_VALUE = {"INT": "1", "FLOAT": "0.5", "STRING": "'a'", "INTS": "[1, 2]", "FLOATS": "[0.5]", "STRINGS": "['a']"}
+
+
+def param_tok(p) -> str:
+    if p[0] == "I":
+        return f"I{1 if p[2] else 0}{1 if p[3] else 0}"
+    return f"A{1 if p[2] else 0}{1 if p[3] else 0}"
+
+
+def check_calls(run, drv, rows, rng, stats, n_static):
+    """`separate_input_attributes_from_arguments` on positional calls of every row, both `allow_extra_args` settings
+    (real function with sentinel arguments; the builder's `_partition_inputs_attributes`; the converter end to end on a
+    sample) vs OV.Call.separate."""
+    import onnxscript
+    from onnxscript._internal import param_manipulation
+
+    jobs, lines = [], []
+    for r in rows:
+        ps = r["params_full"]
+        limit = len(ps)
+        for i, p in enumerate(ps):
+            if p[0] == "A" and p[4] not in ATTR_VALUE:
+                limit = i  # positional values for graph/tensor-valued attributes are not generated
+                break
+        for n in range(0, limit + 1 + (1 if limit == len(ps) else 0)):
+            for ae in (True, False):
+                jobs.append((r, n, ae))
+                lines.append(f"sep {1 if ae else 0} {n} " + " ".join(param_tok(p) for p in ps))
+    answers = drv.ask(lines)
+    problems, static_jobs = [], []
+    gb = new_builder(18)
+    for (r, n, ae), ans in zip(jobs, answers):
+        v = r["opsets"][0]
+        op = getattr(onnxscript, f"opset{v}")[r["op"]]
+        sentinels = [object() for _ in range(n)]
+        stats["calls_cases"] += 1
+
+        def canon(fn):
+            try:
+                ins, attrs = fn()
+                idx = {id(x): k for k, x in enumerate(sentinels)}
+                names = [p[1] for p in r["params_full"]]
+                return ("ok in=" + ",".join(str(idx[id(x)]) for x in ins) + " attr="
+                        + ",".join(f"{names.index(k)}:{idx[id(val)]}" for k, val in attrs.items()))
+            except TypeError as e:
+                msg = str(e)
+                return "ERR:missing" if "was not provided" in msg else "ERR:tooMany" if "Too many positional" in msg else f"ERR:other:{msg[:60]}"
+
+        real = canon(lambda: param_manipulation.separate_input_attributes_from_arguments(
+            op.op_signature, list(sentinels), {}, fill_defaults=False, allow_extra_args=ae))
+        stats["calls_" + ans.split(" ")[0].replace(":", "_")] += 1
+        if real != ans:
+            problems.append((r["op"], v, n, ae, f"separate_input_attributes_from_arguments: impl {real} ; model {ans}"))
+        if not ae:
+            realb = canon(lambda: gb._partition_inputs_attributes(gb._get_schema(r["op"], "", v), list(sentinels), {}))
+            if realb != ans:
+                problems.append((r["op"], v, n, ae, f"BuilderBase._partition_inputs_attributes: impl {realb} ; model {ans}"))
+        elif ans.startswith("ok") and n >= 1:
+            static_jobs.append((r, v, n, ans))
+    # converter end to end on a sample: number of operator inputs and the attribute names of the emitted node
+    rng.shuffle(static_jobs)
+    static_jobs = static_jobs[:n_static]
+    bodies = []
+    for i, (r, v, n, ans) in enumerate(static_jobs):
+        ps = r["params_full"]
+        args, params = [], []
+        for k in range(n):
+            if k >= len(ps):
+                args.append("7")  # surplus positional argument
+            elif ps[k][0] == "A":
+                args.append(ATTR_VALUE[ps[k][4]])
+            elif k == 0 or rng.random() < 0.5:
+                params.append(f"x{k}: FLOAT[2]")
+                args.append(f"x{k}")
+            else:
+                args.append("1")
+        if not params:
+            params.append("z: FLOAT[2]")
+        bodies.append((f"f{i}", f"@script(default_opset=opset{v})\ndef f{i}({', '.join(params)}):\n    r = opset{v}.{r['op']}({', '.join(args)})\n    return r\n"))
+    if bodies:
+        fn, err, modname = scriptgen.compile_functions(bodies, header_extra=HEADER_EXTRA)
+        for i, (r, v, n, ans) in enumerate(static_jobs):
+            name = f"f{i}"
+            stats["calls_static"] += 1
+            if name in err:
+                stats["calls_static_refused"] += 1
+                continue
+            node = next((nd for nd in reversed(all_nodes(fn[name].function_ir.graph)) if nd.op_type == r["op"]), None)
+            if node is None:
+                stats["calls_static_refused"] += 1
+                continue
+            m_in = ans.split(" ")[1][3:]
+            m_attr = ans.split(" ")[2][5:]
+            want_in = len(m_in.split(",")) if m_in else 0
+            want_attrs = sorted(r["params_full"][int(q.split(":")[0])][1] for q in m_attr.split(",")) if m_attr else []
+            got_attrs = sorted(node.attributes.keys())
+            if len(node.inputs) != want_in or got_attrs != want_attrs:
+                problems.append((r["op"], v, n, True, f"converter: node has {len(node.inputs)} inputs and attributes {got_attrs} ; model {ans} "
+                                 f"({want_in} inputs, attributes {want_attrs}) ; program:\n{bodies[i][1]}"))
+        scriptgen.release(modname)
+    return problems
+
+
 # --------------------------------------------------------------------------- builder: histories of opsets in one process
 
 
@@ -1043,6 +1269,106 @@ def check_history(run, drv, items, stats):
     return problems
 
 
+# --------------------------------------------------------------------------- builder: sessions (several calls, one builder, one cache)
+
+SESSION_LITS = [0, 1, 0.0, -0.0, True, False, 1.0, 2.5, -3, 0.5, 2, [1, 2], [0.5], [1.0, 2.0], [0.0], [-0.0], [1, 2.5], [True, 1],
+                [1, True], 300, -2.5]
+
+
+def session_cases(rows, rng, ncalls):
+    multi = [r for r in rows if len(r["sig"]) >= 2 or r["sig"][-1][1]]
+    out = []
+    for _ in range(ncalls):
+        r = rng.choice(multi)
+        nf = len(r["sig"])
+        m = nf + (rng.choice([0, 1, 2]) if r["sig"][-1][1] else (1 if rng.random() < 0.05 else 0))
+        base = rng.choice(["FLOAT", "FLOAT", "DOUBLE", "INT64", "UINT8", "FLOAT16", "BOOL"])
+        args = []
+        for i in range(m):
+            u = rng.random()
+            if u < 0.35:
+                args.append(f"t:{base if rng.random() < 0.85 else rng.choice(SIB)}:{0 if rng.random() < 0.2 else 1}")
+            elif u < 0.93:
+                args.append(enc_lit(rng.choice(SESSION_LITS)))
+            else:
+                args.append("n")
+        out.append(dict(op=r["op"], opset=rng.choice(r["opsets"]), sig=r["sig"], raw=r["raw"], args=args, kind="session"))
+    return out
+
+
+def run_session_real(calls):
+    """Execute the calls on ONE real GraphBuilder through `_get_schema` + `_cast_inputs`; operands with initializer names."""
+    import onnx_ir as ir
+
+    gb = new_builder(18)
+    results = []
+    for k, case in enumerate(calls):
+        def mk(j, d, known, k=k):
+            return gb.input(f"x{k}_{j}", getattr(ir.DataType, d), [2]) if known else gb.input(f"x{k}_{j}")
+
+        args, tensors = py_args(case, mk)
+        try:
+            vals = gb._cast_inputs(gb._get_schema(case["op"], "", case["opset"]), args)
+            outs = []
+            for v in vals:
+                o = read_builder_value(v, tensors, set())
+                name = "-"
+                if o[0] == "C":
+                    src = v if v.producer() is None else v.producer().inputs[0]
+                    name = canon_real_name(src.name)
+                outs.append((o, name))
+            results.append(outs)
+        except Exception as e:
+            results.append(err_kind(e))
+    return results, len(gb._constant_cache)
+
+
+def check_sessions(run, drv, sessions, stats):
+    """Several calls on one builder vs the model's `runCalls` (operands, initializer names, cache size)."""
+    lines = ["hist " + " ;; ".join(" ".join(formal_tok(f) for f in c["raw"]) + " | " + " ".join(c["args"]) for c in sess)
+             for sess in sessions]
+    answers = drv.ask(lines)
+    problems = []
+    for sess, ans in zip(sessions, answers):
+        body, size = ans.rsplit(" #", 1)
+        parts = body.split(" ;; ")
+        real, rsize = run_session_real(sess)
+        stats["session_count"] += 1
+        stats["session_calls"] += len(sess)
+        stats["builder_cases"] += len(sess)
+        bad = None
+        if len(parts) != len(sess):
+            bad = f"model answered {len(parts)} calls for {len(sess)}"
+        elif int(size) != rsize:
+            bad = f"cache size {rsize} vs model {size}"
+        else:
+            for k, (c, r, mline) in enumerate(zip(sess, real, parts)):
+                if mline.startswith("ERR:"):
+                    if r != mline:
+                        bad = f"call {k} {case_key(c)}: impl {r if isinstance(r, str) else show_out([o for o, _ in r])} ; model {mline}"
+                        break
+                    stats["session_err_" + mline.split(":")[1]] += 1
+                    continue
+                if isinstance(r, str):
+                    bad = f"call {k} {case_key(c)}: impl {r} ; model {mline}"
+                    break
+                toks = mline.split(" ")[1:]
+                m_outs = parse_model("ok " + " ".join(t.rsplit("@", 1)[0] for t in toks)) if toks else []
+                m_names = [t.rsplit("@", 1)[1] for t in toks]
+                d = same_out([o for o, _ in r], m_outs, stats)
+                if d:
+                    bad = f"call {k} {case_key(c)}: impl {show_out([o for o, _ in r])} ; model {show_out(m_outs)} : {d}"
+                    break
+                r_names = [n for _, n in r]
+                if r_names[: len(m_names)] != m_names[: len(r_names)]:
+                    bad = f"call {k} {case_key(c)}: initializers {r_names} ; model {m_names}"
+                    break
+                stats["session_shared_initializers"] += len([n for n in r_names if n != "-"]) - len({n for n in r_names if n != "-"})
+        if bad:
+            problems.append((sess, bad))
+    return problems
+
+
 # --------------------------------------------------------------------------- checking a batch
 
 
@@ -1155,9 +1481,17 @@ def main(run: core.Run) -> None:
         "checked against the kernel-evaluated Shape.intern (intern_ok)",
     ]
     t0 = time.time()
-    rows, shapes, problems, changed = extract_schemas.regenerate()
+    # A tree other than /repo (seeded change, scratch worktree) must never change files under /verif: its table is
+    # compared with lean/OV/Gen and, when different, kernel-checked in a temporary directory.
+    foreign = core.REPO.resolve() != core.Path("/repo")
+    rows, shapes, problems, changed = extract_schemas.regenerate(write=not foreign)
+    scratch = None
+    if foreign and changed:
+        ok, log = extract_schemas.scratch_check(rows, shapes)
+        scratch = dict(ok=ok, log=log[-1200:])
     run.coverage["translator"] = dict(rows=len(rows), shapes=len(shapes), regenerated=changed, problems=problems[:5],
-                                      seconds=round(time.time() - t0, 2))
+                                      seconds=round(time.time() - t0, 2), foreign_tree=foreign,
+                                      scratch_table_check=None if scratch is None else scratch["ok"])
     if len(rows) < 200:
         raise core.Infra(f"schema registry degenerated: only {len(rows)} rows")
     audit = run.prove(PROP_MODULES)
@@ -1202,6 +1536,23 @@ def main(run: core.Run) -> None:
             d10_open = any(f["id"] == "D10" for f in run.open_findings())
             if tie or [p for p in prop if not (d10_open and pred_d10(p[0][p[1]][0], p[0][p[2]][0]))]:
                 run.violation(c, "replayed cache sequence still fails")
+        elif "scope_program" in c:
+            body = c["source"].split("\n", 2)[2].rsplit("\n    r = x + x", 1)[0]
+            probs = check_scope_model(run, drv, [(c["scope_program"].split(" "), body, c["scope_program"].count("U"))], stats)
+            for _, _, d in probs:
+                print(f"REPLAY tie scope program: {d}")
+            if probs:
+                run.violation(c, "replayed scope program still disagrees with the model")
+        elif "session" in c:
+            sess = c["session"]
+            for it in sess:
+                it["sig"] = [tuple(f) for f in it["sig"]]
+                it["raw"] = [tuple(f) for f in it["raw"]]
+            probs = check_sessions(run, drv, [sess], stats)
+            for _, d in probs:
+                print(f"REPLAY tie session: {d}")
+            if probs:
+                run.violation(c, "replayed builder session still disagrees with the model")
         elif "case" in c:
             cc = c["case"]
             cc["sig"] = [tuple(f) for f in cc["sig"]]
@@ -1249,9 +1600,25 @@ def main(run: core.Run) -> None:
         all_problems.extend(check_scope(run, drv, sc[k : k + 300], stats, cast_log))
     seen.update(scope_key(c) for c in sc)
 
+    # ---- converter: castable bookkeeping across nested scopes vs OV.Scope (instruction programs)
+    progs = [gen_scope_program(run.rng) for _ in range(run.size(150, 2000))]
+    scope_model_tie = check_scope_model(run, drv, progs, stats)
+    if stats["scopemodel_programs"] and stats["scopemodel_refused"] > 0.3 * stats["scopemodel_programs"]:
+        raise core.Infra(f"converter refused {stats['scopemodel_refused']} of {stats['scopemodel_programs']} scope programs")
+
+    # ---- which positional arguments are inputs: param_manipulation vs OV.Call
+    call_tie = check_calls(run, drv, sweep_rows if quick else rows, run.rng, stats, run.size(250, 2500))
+
     # ---- builder: the same operator traced at several opsets in ONE process, ascending and descending
     for order in ("asc", "desc"):
         all_problems.extend(check_history(run, drv, history_items(rows, run.rng, order, run.size(1, 3)), stats))
+
+    # ---- builder sessions: several calls on one builder (constant cache threaded through `_cast_inputs`)
+    sessions = [[mk("Add", 18, ["t:FLOAT:1", "s:" + enc_scalar(0.0)], "session"), mk("Mul", 18, ["s:" + enc_scalar(-0.0), "s:" + enc_scalar(0.0)], "session"),
+                 mk("Add", 18, ["t:INT64:1", "s:i1"], "session"), mk("Add", 18, ["t:INT64:1", "s:b1"], "session"),
+                 mk("Add", 18, ["t:INT64:1", "s:" + enc_scalar(1.0)], "session"), mk("Add", 13, ["t:INT64:0", "s:i1"], "session")]]
+    sessions += [session_cases(rows, run.rng, run.rng.randint(2, 7)) for _ in range(run.size(250, 4000))]
+    session_tie = check_sessions(run, drv, sessions, stats)
 
     bad_casts = validate_casts_on_ort(cast_log, stats)
 
@@ -1327,6 +1694,23 @@ def main(run: core.Run) -> None:
                            "broken": f"correspondence OV.Autocast.cast{ {'static': 'Static', 'dynamic': 'Dynamic', 'builder': 'Builder'}[fe]} vs implementation"},
                           f"correspondence broken ({fe}): {case_key(c)} :: {detail}; no well-typed representable input found on which a front end leaves the rule",
                           no_input=True)
+        elif scope_model_tie:
+            instrs, src, detail = min(scope_model_tie, key=lambda v: len(v[0]))
+            # a literal bound to a name and not CastLike'd beside a DOUBLE tensor is itself a failing input of the property
+            run.violation({"scope_program": instrs, "source": src, "detail": detail,
+                           "broken": "correspondence OV.Scope.run vs Converter._castable/_locals bookkeeping"},
+                          f"converter and model disagree on which named operand is a polymorphic constant: {detail}\n{src}",
+                          no_input="does not CastLike" not in detail)
+        elif call_tie:
+            opn, v, n, ae, detail = call_tie[0]
+            run.violation({"call": dict(op=opn, opset=v, positional_args=n, allow_extra_args=ae), "detail": detail, "others": len(call_tie) - 1,
+                           "broken": "correspondence OV.Call.separate vs param_manipulation.separate_input_attributes_from_arguments"},
+                          f"correspondence broken (positional arguments of {opn}@{v} with {n} arguments, allow_extra_args={ae}): {detail}", no_input=True)
+        elif session_tie:
+            sess, detail = min(session_tie, key=lambda v: len(v[0]))
+            run.violation({"session": [slim(c) for c in sess], "detail": detail,
+                           "broken": "correspondence OV.Autocast.runCalls (castBuilderC) vs GraphBuilder._cast_inputs on one builder"},
+                          f"correspondence broken (builder session of {len(sess)} calls): {detail}", no_input=True)
         elif cache_tie:
             seq, detail = min(cache_tie, key=lambda v: len(v[0]))
             run.violation({"seq": [[l, d] for l, d in seq], "detail": detail, "broken": "correspondence OV.Autocast.promote vs GraphBuilder._get_or_create_constant"},
@@ -1340,6 +1724,10 @@ def main(run: core.Run) -> None:
         run.violation({"broken": "proof obligations of OV.Props.C12 (registry_ok is regenerated from /repo's schema readings)",
                        "problems": audit["problems"], "log": audit["build_log"][-1500:]},
                       "Lean proof obligations for C12 do not check: " + "; ".join(audit["problems"][:3]), no_input=True)
+    if scratch is not None and not scratch["ok"] and not prop_fail:
+        run.violation({"broken": "registry_ok for the signature table read from this tree (checked in a scratch directory; lean/OV/Gen untouched)",
+                       "log": scratch["log"]},
+                      "the table theorems (intern_ok / chunk_ok / ishapes_ok) do not check for the schema readings of this tree", no_input=True)
     if problems and not prop_fail:
         run.violation({"broken": "translator: the two schema readings are not comparable", "problems": problems[:10]},
                       "schema registry readings diverge: " + "; ".join(problems[:3]), no_input=True)
@@ -1360,6 +1748,16 @@ def main(run: core.Run) -> None:
                      "literals x 7 sibling dtypes (known and unknown to the builder) + absent + same-literal; ")
         + "the Lean table theorem registry_ok covers the full cross product for every row in both tiers",
     )
+    required = ["static_castlike", "static_plain_const", "dynamic_overflow", "builder_overflow", "builder_refused", "tail_homogeneous",
+                "tail_nonhomogeneous", "tail_toomany", "conflicting_siblings", "arg_tensor_unknown", "arg_none", "arg_list",
+                "has_concrete_typed_formal", "builder_end_to_end", "scope_if_outer", "scope_loop_outer", "scope_if_inner", "scope_top",
+                "history_calls", "session_calls", "session_shared_initializers", "session_err_refused", "session_err_tooMany",
+                "scopemodel_uses", "scopemodel_castable", "calls_ok", "calls_ERR_missing", "calls_ERR_tooMany", "calls_static",
+                "cache_hits", "cache_err_overflow", "ort_cast_validated"]
+    zero = [k for k in required if not stats[k]]
+    run.coverage["required_counters"] = {k: stats[k] for k in required}
+    if zero and not run.violations:
+        raise core.Infra(f"generator degenerated: branch counters at zero: {zero}")
     if n_static and stats["static_refused"] > 0.3 * n_static:
         raise core.Infra(f"converter refused {stats['static_refused']} of {n_static} generated calls")
     if stats["cases"] and stats["dynamic_other"] + stats["builder_other"] > 0.05 * stats["cases"]:
